@@ -283,7 +283,16 @@ func (e *pipeEnv) genScript(t string) {
 		}
 		used = append(used, full)
 		n := &pb.Notification{Timestamp: time.Now().UnixNano() + int64(i), Prefix: prefix}
-		if r.Intn(5) == 0 {
+		if r.Intn(6) == 0 && len(path.GetElem()) > 1 {
+			// the replace idiom: one notification deletes a container and re-asserts a leaf beneath it
+			// (the delete removes what was there before, not what the same notification brings)
+			dp := &pb.Path{Elem: path.GetElem()[:len(path.GetElem())-1]}
+			v := genPipeVal(r)
+			n.Delete = []*pb.Path{dp}
+			n.Update = []*pb.Update{{Path: path, Val: v.tv}}
+			e.w.Emit(trace.E{"ev": "tsend", "t": t, "k": "del", "p": append([]string{eff}, idxNoOrigin(prefix, dp)...)})
+			e.w.Emit(trace.E{"ev": "tsend", "t": t, "k": "upd", "p": full, "val": v.tok, "gval": v.gtok})
+		} else if r.Intn(5) == 0 {
 			// delete: the leaf itself or its parent subtree
 			dp := path
 			fullDel := full
